@@ -631,6 +631,172 @@ func checkC08(c *Ctx, r *Report) {
 		}
 		r5.Check(okD && okT, "PublicKeyToProto: {Type: k.Type(), Data: k.Raw()}", f.Pos(), 2, "", "", "")
 	}
+
+	// ---- R9 ---------------------------------------------------------------
+	r9 := r.Rule("C08-R9", "E1/E6", 6, "peer records and inline keys: PeerRecordFromProtobuf carries the peer ID, the addresses and the sequence number of the message into the record it returns; TimestampSeq stores what it hands out and never hands out a number that is not above the last; ExtractPublicKey yields a key only from an identity multihash")
+	prT := "core/peer.PeerRecord"
+	if f := r9.need("core/peer.PeerRecordFromProtobuf"); f != nil && len(f.Params) == 1 {
+		msg := f.Params[0]
+		fromMsg := func(field string) func(ssa.Value) bool {
+			return func(v ssa.Value) bool {
+				return derivesFrom(v, func(x ssa.Value) bool {
+					if fl, base := loadOfField(x); fl != nil && fl.Name() == field {
+						b := resolveLoad(strip2(base))
+						return b == ssa.Value(msg) || isParamCellLoad(c, b, msg)
+					}
+					if ci := isResultOfCall(x, 0, "(*core/peer/pb.PeerRecord).Get"+field); ci != nil {
+						b := resolveLoad(strip2(ci.Common().Args[0]))
+						return b == ssa.Value(msg) || isParamCellLoad(c, b, msg)
+					}
+					return false
+				})
+			}
+		}
+		okRet := func(in ssa.Instruction) bool {
+			ret, ok := in.(*ssa.Return)
+			return ok && isNilConst(retVal(ret, 1))
+		}
+		for _, q := range []struct{ field, src string }{{"Seq", "Seq"}, {"Addrs", "Addresses"}} {
+			sts := findInstrs(f, func(in ssa.Instruction) bool {
+				st, ok := in.(*ssa.Store)
+				if !ok || !isFieldWrite(in, prT+"."+q.field) {
+					return false
+				}
+				if fromMsg(q.src)(st.Val) {
+					return true
+				}
+				// ... or converted by a function that is handed the message's field
+				if call, isC := resolveLoad(strip2(st.Val)).(*ssa.Call); isC {
+					for _, a := range call.Call.Args {
+						if fromMsg(q.src)(a) {
+							return true
+						}
+					}
+				}
+				return false
+			})
+			w, n := (&Cut{Fn: f, Target: okRet, Sep: inSet(sts)}).Run(c)
+			r9.Check(w == "" && len(sts) >= 1, "PeerRecordFromProtobuf: record."+q.field+" comes from msg."+q.src, f.Pos(), n+1, "", "every received record has sequence number 0 (an older record replaces a newer one) / no addresses", w)
+		}
+		// the peer ID: what UnmarshalBinary filled from msg.PeerId
+		sts := findInstrs(f, fieldWritePred(prT+".PeerID"))
+		w, n := (&Cut{Fn: f, Target: okRet, Sep: inSet(sts)}).Run(c)
+		okID := false
+		for _, call := range callsIn(f, "(*core/peer.ID).UnmarshalBinary") {
+			if fromMsg("PeerId")(call.Common().Args[1]) {
+				okID = true
+			}
+		}
+		r9.Check(w == "" && len(sts) >= 1 && okID, "PeerRecordFromProtobuf: record.PeerID is the decoded msg.PeerId", f.Pos(), n+1, "", "the record is attributed to nobody (or to somebody else)", w)
+	}
+	if f := r9.need("core/peer.TimestampSeq"); f != nil {
+		isLast := func(v ssa.Value) bool {
+			u, ok := resolveLoad(strip2(v)).(*ssa.UnOp)
+			if !ok || u.Op != token.MUL {
+				return false
+			}
+			g, isG := u.X.(*ssa.Global)
+			return isG && g.Name() == "lastTimestamp"
+		}
+		var stores []ssa.Instruction
+		allInstrs(f, func(in ssa.Instruction) {
+			if st, ok := in.(*ssa.Store); ok {
+				if g, isG := st.Addr.(*ssa.Global); isG && g.Name() == "lastTimestamp" {
+					stores = append(stores, in)
+				}
+			}
+		})
+		okSame := len(stores) >= 1
+		for _, ret := range returnsOf(f) {
+			rv := resolveLoad(strip(retVal(ret, 0)))
+			matched := isLast(retVal(ret, 0)) // (the global read back after it was stored)
+			for _, st := range stores {
+				if resolveLoad(strip(st.(*ssa.Store).Val)) == rv {
+					matched = true
+				}
+			}
+			if !matched {
+				okSame = false
+			}
+		}
+		w, n := (&Cut{Fn: f, Target: isRetInstr, Sep: inSet(stores)}).Run(c)
+		r9.Check(okSame && w == "", "TimestampSeq: the number handed out is the one remembered as the last", f.Pos(), n+1, "", "two calls in the same nanosecond (or a clock stepping back) hand out the same or a lower number: the newer record is refused", w)
+		// what is stored: the clock when it is above the last number, the last number plus one otherwise
+		for _, st := range stores {
+			v := resolveLoad(strip(st.(*ssa.Store).Val))
+			isBump := func(x ssa.Value) bool {
+				bo, ok := resolveLoad(strip2(x)).(*ssa.BinOp)
+				if !ok || bo.Op != token.ADD || !isLast(bo.X) {
+					return false
+				}
+				k, isC := constInt(bo.Y)
+				return isC && k >= 1
+			}
+			usesLast := func(x ssa.Value) bool { return derivesFrom(x, isLast) }
+			switch y := v.(type) {
+			case *ssa.Phi:
+				bump := phiEdgesWhere(y, isBump)
+				clock := phiEdgesWhere(y, func(x ssa.Value) bool { return !usesLast(x) })
+				if odd := phiEdgesWhere(y, func(x ssa.Value) bool { return usesLast(x) && !isBump(x) }); len(odd) > 0 {
+					r9.Fail("TimestampSeq: below or at the last number, the last number plus one is handed out", instrPos(st), "the alternative to the clock is computed from lastTimestamp but is not lastTimestamp plus a positive constant", "")
+					continue
+				}
+				if len(bump) == 0 || len(clock) == 0 {
+					r9.OK("TimestampSeq: below or at the last number, the last number plus one is handed out", instrPos(st), 1, "not decided: the merge of the clock with lastTimestamp+1 is not recognised")
+					continue
+				}
+				w, n := (&Cut{Fn: f, TargetEdge: edgeSet(clock), EdgeCut: edgeExcl(func(x ssa.Value) bool { return !usesLast(x) }, isLast, ordLT, ordEQ)}).Run(c)
+				r9.Check(w == "", "TimestampSeq: the clock is handed out only when it is above the last number", instrPos(st), n+1, "", "a number equal to or below the last one is handed out", w)
+			case *ssa.Call:
+				if calleeKey(y) == "builtin.max" {
+					okM := false
+					for _, a := range y.Call.Args {
+						if isBump(a) {
+							okM = true
+						}
+					}
+					r9.Check(okM, "TimestampSeq: max(clock, lastTimestamp+1)", instrPos(st), 1, "", "", "")
+				} else if !usesLast(v) {
+					r9.Fail("TimestampSeq: below or at the last number, the last number plus one is handed out", instrPos(st), "the clock is stored without being compared with the last number", "")
+				}
+			default:
+				if !usesLast(v) {
+					r9.Fail("TimestampSeq: below or at the last number, the last number plus one is handed out", instrPos(st), "the clock is stored without being compared with the last number", "")
+				}
+			}
+		}
+		// the clock value is used only when it is above the last number
+		nT := 0
+		for _, b := range blocksDeep(f) {
+			ifi := ifOf(b)
+			if ifi == nil {
+				continue
+			}
+			tab := condTable(ifi.Cond, func(v ssa.Value) bool { return !isLast(v) }, isLast)
+			if tab[ordLT] == triUnknown || tab[ordEQ] == triUnknown || tab[ordGT] == triUnknown {
+				continue
+			}
+			nT++
+			r9.Check(tab[ordLT] == tab[ordEQ] && tab[ordGT] != tab[ordEQ], "TimestampSeq: the clock is taken only when strictly above the last number", instrPos(ifi), 1, "", "a number equal to the last one is handed out again", fmt.Sprint(tab))
+		}
+		if nT == 0 {
+			r9.OK("TimestampSeq: the clock is taken only when strictly above the last number", f.Pos(), 1, "not decided: no comparison of the clock with lastTimestamp recognised (max()?)")
+		}
+	}
+	if f := r9.need("(core/peer.ID).ExtractPublicKey"); f != nil {
+		ident := constIntObj(c, "github.com/multiformats/go-multihash", "IDENTITY")
+		isCode := func(v ssa.Value) bool {
+			fl, _ := loadOfField(resolveLoad(strip2(v)))
+			return fl != nil && fl.Name() == "Code"
+		}
+		var oks []ssa.Instruction
+		for _, ret := range returnsOf(f) {
+			if isNilConst(retVal(ret, 1)) {
+				oks = append(oks, ret)
+			}
+		}
+		r9.guard(f, "hand out a key", oks, "the multihash is the identity hash", eqEdge(isCode, func(v ssa.Value) bool { k, ok := constInt(v); return ok && k == ident }, true), nil)
+	}
 }
 
 // sigViaUnmarshal: the signature argument is a field of a struct that
